@@ -768,6 +768,9 @@ func (check typecheck) conversion(n *node, typ *itype) error {
 	if n.rval.IsValid() {
 		if con, ok := n.rval.Interface().(constant.Value); ok {
 			c = con
+		} else if !n.typ.untyped && isNumber(n.typ.TypeOf()) && isNumber(typ.TypeOf()) {
+			// A typed numeric constant: its value must be representable in the target type.
+			c = constantOf(n.rval)
 		}
 	}
 
